@@ -48,9 +48,13 @@ def cache_dir(tier):
 
 
 def prune(base, keep=3):
-    ds = sorted((os.path.join(base, d) for d in os.listdir(base) if d.startswith("f1-")), key=os.path.getmtime)
+    now = time.time()
+    ds = sorted((os.path.join(base, d) for d in os.listdir(base) if d.startswith("f1-") and ".tmp-" not in d), key=os.path.getmtime)
     for d in ds[:-keep]:
         shutil.rmtree(d, ignore_errors=True)
+    for d in os.listdir(base):      # abandoned builds (a build in progress is never older than a few hours)
+        if d.startswith("f1-") and ".tmp-" in d and now - os.path.getmtime(os.path.join(base, d)) > 6 * 3600:
+            shutil.rmtree(os.path.join(base, d), ignore_errors=True)
 
 
 def stratum(line):
@@ -66,10 +70,14 @@ def stratum(line):
     prefixes = {c_["id"]: c_["prefix"] for c_ in cs.get("ctrls", [])}
     routes = sorted((prefixes.get(m["ctrl"], "") + m.get("route", "")) for m in cs.get("methods", []))
     # path shape: doubled slashes, trailing slash, several verbs on one path
-    key.append("%s|%s|%s" % (any("//" in r_ for r_ in routes), any(r_.endswith("/") for r_ in routes), len(set(r_.replace("//", "/") for r_ in routes)) < len(routes)))
+    anon = [re.sub(r"\{[^}]*\}", "{}", r_.replace("//", "/")) for r_ in routes]
+    key.append("%s|%s|%s|%s" % (any("//" in r_ for r_ in routes), any(r_.endswith("/") for r_ in routes), len(set(r_.replace("//", "/") for r_ in routes)) < len(routes),
+                                len(set(anon)) < len(set(r_.replace("//", "/") for r_ in routes))))
     for m in cs.get("methods", []):
         key.append("%s|%s|%s" % (m.get("hidden"), bool(m.get("sec")), ",".join(sorted(set(x.get("scheme", "") for x in (m.get("sec") or []) if x.get("scheme") in ("s9", "S1"))))))
         kinds = sorted(set(piece.split(":")[0] for piece in (m.get("ptag") or "").split("+")))
+        key.append(",".join("%s:%s:%s:%s" % (a_.get("kind"), bool(a_.get("alias")), a_.get("validate") or "", next((sg["type"] for sg in m.get("sig", []) if sg["name"] == a_.get("value")), ""))
+                            for a_ in m.get("anns", [])) if len(m.get("anns", [])) == 1 else "")
         key.append("%s|%s|%s|%s" % (",".join(kinds), m.get("desc", ""), len(m.get("sig", [])), ",".join(str(g) for g in m.get("groups", []))))
     key.append(",".join(sorted(t["name"] + (":" + t["fields"][0]["type"] if t["name"] in ("Hostile", "Rules") and t.get("fields") else "") for t in cs.get("types", []))))
     return json.dumps(key)
@@ -198,6 +206,9 @@ def build_recording(tier):
     if os.path.exists(done) and not os.environ.get("VERIF_NOCACHE"):
         c.log("family F1: using cached recording " + os.path.basename(d))
         return d
+    # several checks of the family may start at once: each builds into its own directory and publishes it with one rename
+    final_d = d
+    d = "%s.tmp-%d" % (final_d, os.getpid())
     shutil.rmtree(d, ignore_errors=True)
     os.makedirs(d)
     t0 = time.time()
@@ -227,12 +238,12 @@ def build_recording(tier):
     work = os.path.join(sc, "work")
     # (cfg, simulate-walks, sample-size, extra pipe-run flags)
     V0, A0 = ["--validate=false"], ["--alt=false"]
-    plan = [("Pipeline_c04.cfg", None, 800 if thorough else 72, V0), ("Pipeline_c01sim.cfg", 1200 if thorough else 40, None, V0), ("Pipeline_c01core.cfg", None, 10 ** 6 if thorough else 32, V0),
-            ("Pipeline_sim.cfg", 2500 if thorough else 40, None, V0), ("Pipeline_c06single.cfg", None, 10 ** 6, V0), ("Pipeline_c06grp.cfg", None, 10 ** 6 if thorough else 16, V0), ("Pipeline_c06sim.cfg", 1500 if thorough else 30, None, V0),
-            ("Pipeline_c07sim.cfg", 1500 if thorough else 40, None, V0), ("Pipeline_c11rules.cfg", None, 10 ** 6, V0), ("Pipeline_c11rulesp.cfg", None, 10 ** 6, V0), ("Pipeline_c10core.cfg", None, 10 ** 6, A0), ("Pipeline_c10.cfg", None, 1000 if thorough else 40, A0), ("Pipeline_c10mask.cfg", None, 700 if thorough else 40, A0),
+    plan = [("Pipeline_c04.cfg", None, 800 if thorough else 72, V0), ("Pipeline_c01sim.cfg", 1200 if thorough else 30, None, V0), ("Pipeline_c01core.cfg", None, 10 ** 6 if thorough else 36, V0),
+            ("Pipeline_sim.cfg", 2500 if thorough else 30, None, V0), ("Pipeline_c06single.cfg", None, 10 ** 6 if thorough else 70, V0), ("Pipeline_c06grp.cfg", None, 10 ** 6 if thorough else 16, V0), ("Pipeline_c06sim.cfg", 1500 if thorough else 20, None, V0),
+            ("Pipeline_c07sim.cfg", 1500 if thorough else 36, None, V0), ("Pipeline_c11rules.cfg", None, 10 ** 6, V0), ("Pipeline_c11rulesp.cfg", None, 10 ** 6, V0), ("Pipeline_c10core.cfg", None, 10 ** 6, A0), ("Pipeline_c10.cfg", None, 1000 if thorough else 24, A0), ("Pipeline_c10mask.cfg", None, 700 if thorough else 24, A0),
             ("Pipeline_c10maskcore.cfg", None, 10 ** 6, A0), ("Pipeline_c10enf.cfg", None, 10 ** 6, A0),
             ("Pipeline_c13sim.cfg", 400 if thorough else 24, None, V0 + A0),
-            ("Pipeline_c14sim.cfg", 2000 if thorough else 40, None, V0), ("Pipeline_c14types.cfg", None, 10 ** 6, V0), ("Pipeline_c14generics.cfg", None, 10 ** 6, V0)]
+            ("Pipeline_c14sim.cfg", 2000 if thorough else 30, None, V0), ("Pipeline_c14types.cfg", None, 10 ** 6, V0), ("Pipeline_c14generics.cfg", None, 10 ** 6, V0)]
     if thorough:
         plan.append(("Pipeline_c10sim.cfg", None, 1500, A0))     # every double perturbation, enumerated; a stratified sample is run
     import concurrent.futures
@@ -324,7 +335,17 @@ def build_recording(tier):
     json.dump(meta, open(os.path.join(d, "meta.json"), "w"), indent=1)
     c.log("recording: %d cases (%d accepted) + %d C13 cases, %d hook events validated by TLC, %.0fs" %
           (j["cases"], j["accepted"], j13["cases"], meta["trace"]["events"], meta["wall"]))
-    open(done, "w").write("ok")
+    open(os.path.join(d, "DONE"), "w").write("ok")
+    if os.environ.get("VERIF_NOCACHE"):
+        shutil.rmtree(final_d, ignore_errors=True)
+    try:
+        os.rename(d, final_d)
+        d = final_d
+    except OSError:
+        # another check of the family published the same recording first: use that one
+        if os.path.exists(os.path.join(final_d, "DONE")):
+            shutil.rmtree(d, ignore_errors=True)
+            d = final_d
     prune(base)
     return d
 
